@@ -40,7 +40,7 @@ def starts (c : Ctx) : Nat → Kont → Bool
       let K' := Frame.run blk (pos + 1) :: rest
       match s with
       | .mtch r _ => (r.deriv c.x).alive || (r.nullable && starts c fuel K')
-      | .wait r => (r.deriv c.x).alive || (r.nullable && starts c fuel K')
+      | .wait r _ => (r.deriv c.x).alive || (r.nullable && starts c fuel K')
       | .act a =>
         match a with
         | .finish _ => false
@@ -56,7 +56,7 @@ def starts (c : Ctx) : Nat → Kont → Bool
       | .try_ b nm oos h => starts c fuel (.run b 0 :: .tryMark nm oos h :: K')
       | .ifs bs => bs.any (fun cb => starts c fuel (.run cb.2 0 :: K')) || (!hasElse bs && starts c fuel K')
   | fuel + 1, .m r _ :: rest => (r.deriv c.x).alive || (r.nullable && starts c fuel rest)
-  | fuel + 1, .w _ r :: rest => (r.deriv c.x).alive || (r.nullable && starts c fuel rest)
+  | fuel + 1, .w _ r _ :: rest => (r.deriv c.x).alive || (r.nullable && starts c fuel rest)
   | fuel + 1, .c _ _ alts els :: rest =>
     alts.any (fun a => (a.1.deriv c.x).alive) ||
     alts.any (fun a => a.1.nullable && starts c fuel (.run a.2.2 0 :: rest)) ||
@@ -87,7 +87,7 @@ def ambig (c : Ctx) : Nat → Kont → Option String
       let K' := Frame.run blk (pos + 1) :: rest
       match s with
       | .mtch r pc => ambig c fuel (.m r pc :: K')
-      | .wait r => ambig c fuel (.w r r :: K')
+      | .wait r pc => ambig c fuel (.w r r pc :: K')
       | .act a =>
         match a with
         | .finish _ => none
@@ -110,7 +110,7 @@ def ambig (c : Ctx) : Nat → Kont → Option String
     else match unwind false rest with
       | some K' => ambig c fuel K'
       | none => none
-  | fuel + 1, .w r0 r :: rest =>
+  | fuel + 1, .w r0 r _ :: rest =>
     if (r.deriv c.x).alive then
       if r.nullable && starts c fuel rest then some "wait: the symbol continues the pattern and starts what follows" else none
     else if r.nullable then ambig c fuel rest
